@@ -770,13 +770,8 @@ func TestC26(t *testing.T) {
 	r.Assume("The impostor is a data-channel peer with its own valid bifrost identity (key Y); it cannot present X's certificate. Signaling-level identity (who the relay says sent a signal) is C19/C20's subject.")
 	npool := r.N(64, 640)
 	pool := keys.Pool(r.Rand("c26/keys"), npool)
-	t0 := time.Now()
 	partSignals(r, pool)
-	fmt.Println("TIMING signals", time.Since(t0)); t0 = time.Now()
 	partRoles(r, pool)
-	fmt.Println("TIMING roles", time.Since(t0)); t0 = time.Now()
 	hostile := partHostileRoles(t, r)
-	fmt.Println("TIMING hostile", time.Since(t0)); t0 = time.Now()
 	partLinks(r, pool, hostile)
-	fmt.Println("TIMING links", time.Since(t0))
 }
